@@ -467,6 +467,9 @@ class Interp:
         base = self.ev(node.value, st)
         a = node.attr
         if isinstance(base, ModV):
+            if base.name == "np" and a == "pi":
+                import math
+                return math.pi if V.FLOATMODE else V.PI
             return FuncV(base.name, a)
         if isinstance(base, Ref):
             return self.read_field(st, base, a, node)
